@@ -60,6 +60,10 @@ func firedPattern(d decision) []bool {
 func c08Echo(c *caseCtx) {
 	method := methods[c.idx%len(methods)]
 	g := genRequest(c.rng, genOpts{method: method, nBiases: 1 + c.rng.Intn(4), minCrit: 2, maxCrit: 4, minAlt: 2, maxAlt: 4})
+	if (method == "weightedSum" || method == "owa" || method == "choquetIntegral") && c.rng.Intn(12) == 0 {
+		g.M["choseToMake"] = []interface{}{} // nothing to rank is still a request whose biases are processed and echoed
+		g.chose = nil
+	}
 	bs := g.M["biases"].([]interface{})
 	// sprinkle disabled entries (also unknown names) and explicit probabilities 0 / 1
 	var withJunk []interface{}
@@ -330,6 +334,92 @@ func c08Frequency(c *caseCtx) {
 	c.sample(M{"probability": p, "position": pos, "seeds": N, "fires": fires})
 }
 
+// firing depends only on the seed, the position and the probability - not on which other seeds a process served
+// before: two fresh service processes get the same requests in opposite orders (the seeds come in families that
+// agree in their low 31 / 32 bits)
+func c08Processes(c *caseCtx) {
+	type reqT struct {
+		seed int64
+		body []byte
+	}
+	var reqs []reqT
+	for b := 0; b < 24; b++ {
+		base := int64(c.rng.Intn(100000))
+		for _, off := range []int64{0, 1 << 31, 1 << 32, -(1 << 31)} {
+			g := tinyProblem("weightedSum")
+			var bs []interface{}
+			for i := 0; i < 12; i++ {
+				bs = append(bs, M{"name": "fatigue", "applyProbability": 0.5, "props": M{"function": "const", "params": M{"value": 0.25}, "randomSeed": i}})
+			}
+			g.M["biases"] = bs
+			g.M["biasApplyRandomSeed"] = base + off
+			reqs = append(reqs, reqT{base + off, g.body()})
+		}
+	}
+	patterns := make([]map[int64]string, 2)
+	for p := 0; p < 2; p++ {
+		s, err := startServer()
+		if err != nil {
+			c.inconclusive("service did not start: " + err.Error())
+			return
+		}
+		patterns[p] = map[int64]string{}
+		order := make([]int, len(reqs))
+		for i := range order {
+			order[i] = i
+			if p == 1 {
+				order[i] = len(reqs) - 1 - i
+			}
+		}
+		for _, i := range order {
+			r := s.post(reqs[i].body)
+			c.count("evaluations", 1)
+			if r.err != nil || r.status != 200 {
+				s.stop()
+				c.violate("threshold-rejected", fmt.Sprintf("request rejected by the service: %d %v", r.status, r.err), M{"seed": reqs[i].seed})
+				return
+			}
+			v := parseResp(bytes.TrimSpace(r.body))
+			pat := ""
+			for _, b := range v.Biases {
+				if b.Props != nil {
+					pat += "1"
+				} else {
+					pat += "0"
+				}
+			}
+			patterns[p][reqs[i].seed] = pat
+		}
+		s.stop()
+	}
+	for _, rq := range reqs {
+		if patterns[0][rq.seed] != patterns[1][rq.seed] {
+			c.violate("firing-depends-on-history", fmt.Sprintf("biasApplyRandomSeed %d: firing pattern %s in one process, %s in another that served the same requests in the opposite order",
+				rq.seed, patterns[0][rq.seed], patterns[1][rq.seed]), M{"seed": rq.seed})
+			return
+		}
+		// cross-check with the library path of this process
+		d := decide(rq.body, false)
+		if d.OK {
+			pat := ""
+			for _, f := range firedPattern(d) {
+				if f {
+					pat += "1"
+				} else {
+					pat += "0"
+				}
+			}
+			if pat != patterns[0][rq.seed] {
+				c.violate("firing-depends-on-history", fmt.Sprintf("biasApplyRandomSeed %d: firing pattern %s in the service, %s through the library", rq.seed, patterns[0][rq.seed], pat), M{"seed": rq.seed})
+				return
+			}
+		}
+	}
+	c.count("seed_families_cross_process", len(reqs)/4)
+	c.count("nontrivial", 1)
+	c.distinct(fmt.Sprintf("proc|%d", c.idx))
+}
+
 func init() {
 	register(&propDef{
 		id: "C08",
@@ -344,6 +434,8 @@ func init() {
 			{name: "echo", n: tierN(14000, 300000), unit: 3500, run: c08Echo, floors: map[string]int64{"echo_checked": 8000, "disabled_equivalence_checked": 4000, "http_path_compared": 8000}},
 			{name: "threshold", n: tierN(600, 12000), unit: 75, run: c08Threshold, floors: map[string]int64{"thresholds_checked": 500, "independence_checked": 1000}},
 			{name: "frequency", n: tierN(20, 200), unit: 2, run: c08Frequency, floors: map[string]int64{"frequency_batteries": 20}},
+			{name: "processes", n: tierN(2, 12), unit: 1, run: c08Processes, floors: map[string]int64{"seed_families_cross_process": 40},
+				note: "two fresh service processes serve 96 requests (24 seed families agreeing in their low 31/32 bits) in opposite orders; firing patterns must agree"},
 		},
 	})
 }
